@@ -1,14 +1,26 @@
 #!/bin/bash
-# Runs the matching quick check against every seeded change the prescribed way: apply to /repo, run, undo straight afterwards.
-# usage: tools/run_seeded.sh [id ...]      results -> seeded/RESULTS.txt
-cd /verif
+# Runs the matching quick check against every seeded change.
+#   default      : the prescribed way - apply to /repo (git apply), run, undo straight afterwards (git checkout -- .)
+#   --worktree   : apply to a scratch worktree of /repo instead and run with GNPY_SRC=<worktree> (use this while a
+#                  background run is using /repo)
+# usage: tools/run_seeded.sh [--worktree] [id ...]      results -> seeded/RESULTS.txt
+cd "$(dirname "$0")/.."
+mode=repo; [ "$1" = "--worktree" ] && { mode=worktree; shift; }
 ids="$@"; [ -z "$ids" ] && ids=$(ls seeded | grep -E '^C[0-9]+-')
 for id in $ids; do
   prop=${id%%-*}
-  if ! git -C /repo diff --quiet; then echo "/repo is dirty, refusing"; exit 2; fi
-  git -C /repo apply /verif/seeded/$id/patch.diff || { echo "$id: patch does not apply"; continue; }
-  out=$(./check $prop --no-evidence 2>&1); rc=$?
-  git -C /repo checkout -- .
+  if [ $mode = repo ]; then
+    if ! git -C /repo diff --quiet; then echo "/repo is dirty, refusing"; exit 2; fi
+    git -C /repo apply seeded/$id/patch.diff || { echo "$id: patch does not apply"; continue; }
+    out=$(./check $prop --no-evidence 2>&1); rc=$?
+    git -C /repo checkout -- .
+  else
+    wt=/tmp/gnpysim-seeded-wt; git -C /repo worktree remove --force $wt >/dev/null 2>&1
+    git -C /repo worktree add -q --detach $wt HEAD
+    git -C $wt apply $PWD/seeded/$id/patch.diff || { echo "$id: patch does not apply"; git -C /repo worktree remove --force $wt; continue; }
+    out=$(GNPY_SRC=$wt ./check $prop --no-evidence 2>&1); rc=$?
+    git -C /repo worktree remove --force $wt
+  fi
   kinds=$(echo "$out" | grep -E "^  violation" | sed -E 's/^  violation ([^ ]+) .*/\1/' | sort -u | tr '\n' ' ')
   echo "$id: check $prop exit $rc; violation kinds: $kinds" | tee -a seeded/RESULTS.txt
 done
